@@ -150,6 +150,13 @@ pub fn collections(cex: &Value) -> Result<String, String> {
         }
       }
     }
+    // every OneOrMany the API builds - the empty one included - reads back from its own JSON
+    for m in [OneOrMany::<u8>::default(), OneOrMany::from(Vec::<u8>::new()), OneOrMany::One(3u8), OneOrMany::from(vec![1u8, 2])] {
+      let out = serde_json::to_string(&m).unwrap();
+      if serde_json::from_str::<OneOrMany<u8>>(&out).ok().as_ref() != Some(&m) {
+        log.push(format!("[serde] OneOrMany {m:?} serialises as {out}, which does not read back to an equal value"));
+      }
+    }
     // OneOrMany read from JSON is a fixpoint of its own serialisation (a one-element array included)
     for text in ["1", "[1]", "[1,2]", "[]", "[7,7]"] {
       if let Ok(m) = serde_json::from_str::<OneOrMany<u8>>(text) {
